@@ -22,9 +22,10 @@ META = {
              "Non-trivial = resultant R>0.05 (not isotropic); distinct = sha1 of the case."),
     "assumptions": [
         "non-negativity slack -1e-15*max(D); normalisation |sum D*dtheta - 1| <= 1e-9 per frequency",
-        "batch independence: the batch element equals the one-element call within 1e-9 of the distribution maximum where the solver converged (fastmath SIMD reductions are alignment dependent at the 1-ulp level, so bit-for-bit equality is not stable across machines) and within 2e-2 where an iterative solver did not converge (its path amplifies last-bit differences); batch mixing produces O(1) differences",
+        "batch independence: the batch element equals the one-element call within 1e-9 of the distribution maximum where the solver converged (fastmath SIMD reductions are alignment dependent at the 1-ulp level, so bit-for-bit equality is not stable across machines) and within 0.5 of the maximum where an iterative solver did not converge (its 100-iteration path amplifies last-bit differences of the vectorised first guess chaotically - 11 % was observed for N=8 - so only a mix-up of batch elements, an O(1) difference, is detectable there)",
         "known finding F23: MEM is undefined for moments whose second reflection coefficient (c2-c1^2)/(1-|c1|^2) has modulus exactly 1; generated moments within 1e-6 of that boundary are nudged off it (counted), the documented input is a fixed case",
         "round trip e(f) within 1e-9 relative; metadata byte-identical",
+        "a quarter of the cases pass the moments as float32 arrays (single-precision files): normalisation 1e-5, batch independence 1e-5 there",
         "noisy moments are finite and strictly inside the unit disc (radius <= 0.999) as the property states",
     ],
 }
@@ -44,17 +45,19 @@ def dist_case(draw):
     t0 = draw(st.sampled_from([0.0, 0.0, 0.0, 5.0, 123.4]))
     var = draw(st.integers(0, 3))
     return {"shape": shape, "quads": quads, "N": N, "t0": t0, "variant": var,
-            "pick": draw(st.integers(0, n - 1))}
+            "pick": draw(st.integers(0, n - 1)),
+            # moments as read from single-precision files
+            "moment_dtype": draw(st.sampled_from(["float64", "float64", "float64", "float32"]))}
 
 
-def check_distribution(D, N, what, match=None):
+def check_distribution(D, N, what, match=None, norm_tol=1e-9):
     if not np.isfinite(D).all():
         raise Violation("distribution_finite", f"{what}: non-finite values", match=match)
     mx = float(np.max(D))
     require(float(np.min(D)) >= -1e-15 * max(mx, 1.0), "distribution_non_negative",
             lambda: f"{what}: min={float(np.min(D))!r}")
     s = D.sum(axis=-1) * (360.0 / N)
-    require((np.abs(s - 1) <= 1e-9).all(), "distribution_integrates_to_one",
+    require((np.abs(s - 1) <= norm_tol).all(), "distribution_integrates_to_one",
             lambda: f"{what}: integral={s.ravel()[np.argmax(np.abs(s - 1))]!r}")
 
 
@@ -63,18 +66,22 @@ def run_dist(c):
     shape = tuple(c["shape"])
     N = c["N"]
     d = (c["t0"] + np.arange(N) * 360.0 / N) % 360.0
-    M = np.array([q["m"] for q in c["quads"]], dtype=float)      # (n, 4)
-    arrs = [M[:, i].reshape(shape) for i in range(4)]
+    mdt = c.get("moment_dtype", "float64")
+    single = mdt == "float32"
+    M = np.array([q["m"] for q in c["quads"]], dtype=mdt).astype(float)      # (n, 4): the values the arrays hold
+    if single and (np.hypot(M[:, 0], M[:, 1]) >= 1).any():
+        return {"nontrivial": False, "classes": ["rounded_onto_the_unit_circle"]}
+    arrs = [M[:, i].reshape(shape).astype(mdt) for i in range(4)]
     method, sm = VARIANTS[c["variant"]]
     kw = {} if sm is None else {"solution_method": sm}
     D = np.asarray(est(*arrs, d, method=method, **kw))
     require(D.shape == shape + (N,), "output_shape", f"{D.shape} vs {shape + (N,)}")
     degenerate = method == "mem" and any(abs(GM.phi2_modulus(q["m"]) - 1.0) < 1e-9 for q in c["quads"])
     check_distribution(D, N, f"method={method}/{sm} N={N} moments={M[~np.isfinite(D.reshape(len(M), -1)).all(axis=1)][:2].tolist()}",
-                       match={"mem_reflection_coefficient_modulus_one": bool(degenerate)})
+                       match={"mem_reflection_coefficient_modulus_one": bool(degenerate)}, norm_tol=1e-5 if single else 1e-9)
     # batch independence: element `pick` alone
     j = c["pick"]
-    one = [np.array([M[j, i]]) for i in range(4)]
+    one = [np.array([M[j, i]], dtype=mdt) for i in range(4)]
     D1 = np.asarray(est(*one, d, method=method, **kw))
     Dj = D.reshape(-1, N)[j]
     # not bit-for-bit: the jitted kernels use fastmath SIMD reductions whose summation order depends on
@@ -84,12 +91,14 @@ def run_dist(c):
     converged = float(np.linalg.norm(mj - M[j])) <= 0.0101 or method == "mem" or sm == "approximate"
     # where an iterative solver did not converge (unrealisable moments) its 100-iteration path amplifies
     # last-bit differences of the (vectorised vs scalar) initial guess; the result is then only compared loosely
-    btol = 1e-9 if converged else 2e-2
+    btol = (1e-5 if single else 1e-9) if converged else 0.5
     require(D1.shape == (1, N) and np.abs(D1[0] - Dj).max() <= btol * max(float(np.abs(Dj).max()), 1e-300),
             "batch_element_equals_single_call",
             lambda: f"method={method}/{sm} max diff={np.abs(D1[0] - Dj).max()!r} moments={M[j].tolist()}")
     R = np.hypot(M[:, 0], M[:, 1])
     classes = [f"variant_{method}_{sm}", f"shape_{len(shape)}d"] + sorted({"kind_" + q["kind"] for q in c["quads"]})
+    if single:
+        classes.append("float32_moments")
     nudged = sum(1 for q in c["quads"] if q.get("nudged_off_degenerate_boundary"))
     if any(not GM.realisable(q["m"]) for q in c["quads"]):
         classes.append("unrealisable_moments")
@@ -111,6 +120,11 @@ def fixed_dist():
                         "variant": v, "pick": 0})
         out.append({"shape": [], "quads": [{"kind": "vm1", "m": [0.5, 0.2, 0.1, 0.05]}], "N": 24, "t0": 0.0,
                     "variant": v, "pick": 0})
+        # the narrow end of the stated domain ("a few degrees wide"): von-Mises kappa 100 and 400 (5.7 and 2.9 degrees)
+        for kappa, N in ((100.0, 72), (400.0, 180), (400.0, 36)):
+            out.append({"shape": [2], "quads": [{"kind": "vm1", "m": list(GM.mixture_moments([(1.0, 0.7, kappa)], 0.0))},
+                                                {"kind": "vm1", "m": list(GM.mixture_moments([(1.0, -2.4, kappa)], 0.0))}],
+                        "N": N, "t0": 0.0, "variant": v, "pick": 1})
         # finding F3 reproduction
         out.append({"shape": [1], "quads": [{"kind": "noisy", "m": [-0.675842693529585, -0.19738793422816,
                                                                   -0.07264996421001135, -0.0672019861326203]}],
